@@ -113,7 +113,7 @@ theorem never_panics (i : Input) (hh : i.fromHeight < U64_MAX) : model i ≠ .pa
     `from+1, …, from+amount`, in order -/
 theorem ok_exact (i : Input) (hh : i.fromHeight < U64_MAX) (hs : List Hdr) (steps : Nat)
     (h : model i = .ok hs steps) :
-    hs.map (·.height) = List.range' (i.fromHeight + 1) i.amount := by
+    hs.map (·.height) = List.range' (i.fromHeight + 1) i.amount ∧ (i.amount = 0 ∨ i.sameChain = true) := by
   by_cases hv : i.fromValid = true
   · by_cases h0 : i.amount = 0
     · rw [zero_amount_prompt i hv h0] at h
@@ -129,16 +129,29 @@ theorem ok_exact (i : Input) (hh : i.fromHeight < U64_MAX) (hs : List Hdr) (step
           obtain ⟨hinv, hfull, htasks⟩ := hdone s steps' hd
           simp only [hd, hinv.running] at h
           split at h
-          · cases h
+          · rename_i hver
+            cases h
             have hnf : s.toFetch = none := by
               cases hf : s.toFetch with
               | none => rfl
               | some tf => have := hfull tf hf; rw [htasks] at this; simp at this
             have hres := Lumina.Proofs.Session.result_eq ht 64 _ s hinv htasks hnf
-            rw [hres, Lumina.Proofs.Session.rangeLen_pos (by simp only; omega)]
-            simp only
-            congr 1
-            omega
+            rw [Lumina.Proofs.Session.rangeLen_pos (by simp only; omega)] at hres
+            have hlen : i.fromHeight + i.amount - (i.fromHeight + 1) + 1 = i.amount := by omega
+            simp only [hlen] at hres
+            refine ⟨hres, Or.inr ?_⟩
+            -- a non-empty result passed `verify_adjacent_range`
+            have hne : result ht s ≠ [] := by
+              intro e
+              have := congrArg List.length hres
+              rw [e] at this
+              simp at this
+              omega
+            unfold verifyAdjacentRange at hver
+            split at hver
+            · rename_i e; exact absurd e hne
+            · simp only [Bool.and_eq_true] at hver
+              exact hver.2
           · cases h
       · have h1 : ¬ U64_MAX < i.fromHeight + 1 := by omega
         have h2 : U64_MAX < i.fromHeight + 1 + (i.amount - 1) := by omega
@@ -234,8 +247,9 @@ theorem range_spec (i : Input) (hh : i.fromHeight < U64_MAX) (hchain : i.net.cha
   cases hm : model i with
   | panic => exact absurd hm (never_panics i hh)
   | ok hs steps =>
-    simp only [obsOf, specOK, specIn, beq_iff_eq]
-    exact ok_exact i hh hs steps hm
+    have := ok_exact i hh hs steps hm
+    simp only [obsOf, specOK, specIn, Bool.and_eq_true, beq_iff_eq, Bool.or_eq_true]
+    exact this
   | hang =>
     simp only [obsOf, specOK, Bool.and_eq_true, Bool.not_eq_true', beq_eq_false_iff_ne, ne_eq]
     constructor
